@@ -4,6 +4,7 @@ import (
 	"log"
 	"maps"
 	"slices"
+	"sync"
 	"time"
 
 	"github.com/gopcua/opcua/id"
@@ -66,15 +67,51 @@ func DataValueFromValue(val any) *ua.DataValue {
 
 type Node struct {
 	id   *ua.NodeID
-	attr Attributes
 	refs References
+
+	// mu guards attr and val: attributes are written by the service
+	// handlers and read by the notification goroutines of the monitored
+	// item service at the same time.
+	mu   sync.RWMutex
+	attr Attributes
 	val  ValueFunc
 
 	ns NameSpace
 }
 
+// getAttr returns the stored attribute or nil.
+func (n *Node) getAttr(id ua.AttributeID) *ua.DataValue {
+	n.mu.RLock()
+	defer n.mu.RUnlock()
+	return n.attr[id]
+}
+
+// setAttr stores the attribute.
+func (n *Node) setAttr(id ua.AttributeID, v *ua.DataValue) {
+	n.mu.Lock()
+	defer n.mu.Unlock()
+	if n.attr == nil {
+		n.attr = Attributes{}
+	}
+	n.attr[id] = v
+}
+
+// valueFunc returns the function which provides the value of the node.
+func (n *Node) valueFunc() ValueFunc {
+	n.mu.RLock()
+	defer n.mu.RUnlock()
+	return n.val
+}
+
+// cloneAttr returns a copy of the attributes of the node.
+func (n *Node) cloneAttr() Attributes {
+	n.mu.RLock()
+	defer n.mu.RUnlock()
+	return maps.Clone(n.attr)
+}
+
 func NewNode(id *ua.NodeID, attr Attributes, refs References, val ValueFunc) *Node {
-	n := &Node{id, attr, refs, val, nil}
+	n := &Node{id: id, attr: attr, refs: refs, val: val}
 	n.sanitize()
 	return n
 }
@@ -150,19 +187,16 @@ func NewVariableNode(nodeID *ua.NodeID, name string, value any) *Node {
 }
 
 func (n *Node) sanitize() {
-	if n.attr == nil {
-		n.attr = Attributes{}
-	}
-	if n.attr[ua.AttributeIDBrowseName] == nil {
+	if n.getAttr(ua.AttributeIDBrowseName) == nil {
 		n.SetBrowseName("")
 	}
-	if n.attr[ua.AttributeIDDisplayName] == nil {
+	if n.getAttr(ua.AttributeIDDisplayName) == nil {
 		n.SetDisplayName("", "")
 	}
 	if n.DisplayName().Text == "" {
 		n.SetDisplayName(n.BrowseName().Name, "")
 	}
-	if n.attr[ua.AttributeIDDescription] == nil {
+	if n.getAttr(ua.AttributeIDDescription) == nil {
 		n.SetDescription("", "")
 	}
 	//if n.attr[ua.AttributeIDDataType] == nil {
@@ -175,27 +209,26 @@ func (n *Node) ID() *ua.NodeID {
 }
 
 func (n *Node) Value() *ua.DataValue {
-	if n.val == nil {
+	val := n.valueFunc()
+	if val == nil {
 		return nil
 	}
-	return n.val()
+	return val()
 }
 
 func (n *Node) Attribute(id ua.AttributeID) (*AttrValue, error) {
 	switch {
 	case id == ua.AttributeIDValue:
-		if n.val != nil {
-			val := n.val()
+		if vf := n.valueFunc(); vf != nil {
+			val := vf()
 			if val == nil {
 				return nil, ua.StatusBadAttributeIDInvalid
 			}
 			return NewAttrValue(val), nil
 		}
 		return nil, ua.StatusBadAttributeIDInvalid
-	case n.attr == nil:
-		return nil, ua.StatusBadAttributeIDInvalid
 	default:
-		if v := n.attr[id]; v != nil {
+		if v := n.getAttr(id); v != nil {
 			return NewAttrValue(v), nil
 		}
 		return nil, ua.StatusBadAttributeIDInvalid
@@ -209,18 +242,20 @@ func (n *Node) SetAttribute(id ua.AttributeID, val *ua.DataValue) error {
 
 		// TODO: probably need to do some type checking here.
 		// And some permissions tests
+		n.mu.Lock()
 		n.val = func() *ua.DataValue {
 			return val
 		}
+		n.mu.Unlock()
 	default:
-		n.attr[id] = val
+		n.setAttr(id, val)
 	}
 
 	return nil
 }
 
 func (n *Node) BrowseName() *ua.QualifiedName {
-	v := n.attr[ua.AttributeIDBrowseName]
+	v := n.getAttr(ua.AttributeIDBrowseName)
 	if v == nil || v.Value.Value() == nil {
 		return &ua.QualifiedName{}
 	}
@@ -228,11 +263,11 @@ func (n *Node) BrowseName() *ua.QualifiedName {
 }
 
 func (n *Node) SetBrowseName(s string) {
-	n.attr[ua.AttributeIDBrowseName] = DataValueFromValue(&ua.QualifiedName{Name: s})
+	n.setAttr(ua.AttributeIDBrowseName, DataValueFromValue(&ua.QualifiedName{Name: s}))
 }
 
 func (n *Node) DisplayName() *ua.LocalizedText {
-	v := n.attr[ua.AttributeIDDisplayName]
+	v := n.getAttr(ua.AttributeIDDisplayName)
 	if v == nil || v.Value.Value() == nil {
 		return &ua.LocalizedText{}
 	}
@@ -244,11 +279,11 @@ func (n *Node) DisplayName() *ua.LocalizedText {
 func (n *Node) SetDisplayName(text, locale string) {
 	lt := &ua.LocalizedText{Text: text, Locale: locale}
 	lt.UpdateMask()
-	n.attr[ua.AttributeIDDisplayName] = DataValueFromValue(lt)
+	n.setAttr(ua.AttributeIDDisplayName, DataValueFromValue(lt))
 }
 
 func (n *Node) Description() *ua.LocalizedText {
-	v := n.attr[ua.AttributeIDDescription]
+	v := n.getAttr(ua.AttributeIDDescription)
 	if v == nil || v.Value.Value() == nil {
 		return &ua.LocalizedText{}
 	}
@@ -256,7 +291,7 @@ func (n *Node) Description() *ua.LocalizedText {
 }
 
 func (n *Node) SetDescription(text, locale string) {
-	n.attr[ua.AttributeIDDescription] = DataValueFromValue(&ua.LocalizedText{Text: text, Locale: locale})
+	n.setAttr(ua.AttributeIDDescription, DataValueFromValue(&ua.LocalizedText{Text: text, Locale: locale}))
 }
 
 func (n *Node) DataType() *ua.ExpandedNodeID {
@@ -264,7 +299,7 @@ func (n *Node) DataType() *ua.ExpandedNodeID {
 		log.Printf("n was nil!")
 		return ua.NewTwoByteExpandedNodeID(0)
 	}
-	v := n.attr[ua.AttributeIDDataType]
+	v := n.getAttr(ua.AttributeIDDataType)
 	if v != nil && v.Value != nil {
 		// the attribute is writable by clients so it may hold a value of any type
 		if dt, ok := v.Value.Value().(*ua.ExpandedNodeID); ok && dt != nil {
@@ -286,11 +321,11 @@ func (n *Node) DataType() *ua.ExpandedNodeID {
 }
 
 func (n *Node) SetNodeClass(nc ua.NodeClass) {
-	n.attr[ua.AttributeIDNodeClass] = DataValueFromValue(uint32(nc))
+	n.setAttr(ua.AttributeIDNodeClass, DataValueFromValue(uint32(nc)))
 }
 
 func (n *Node) NodeClass() ua.NodeClass {
-	v := n.attr[ua.AttributeIDNodeClass]
+	v := n.getAttr(ua.AttributeIDNodeClass)
 	if v == nil || v.Value.Value() == nil {
 		return ua.NodeClassObject
 	}
@@ -309,12 +344,14 @@ func (n *Node) NodeClass() ua.NodeClass {
 func (n *Node) AddObject(o *Node) *Node {
 	nn := &Node{
 		id:   o.id,
-		attr: maps.Clone(o.attr),
+		attr: o.cloneAttr(),
 		refs: slices.Clone(o.refs),
 	}
+	n.mu.Lock()
 	if n.attr == nil {
 		n.attr = Attributes{}
 	}
+	n.mu.Unlock()
 	nn.SetNodeClass(ua.NodeClassObject)
 	n.refs = append(n.refs, refs.Organizes(nn.id, nn.BrowseName().Name, nn.DisplayName().Text, nn.DataType()))
 	return n.ns.AddNode(nn)
@@ -323,13 +360,15 @@ func (n *Node) AddObject(o *Node) *Node {
 func (n *Node) AddVariable(o *Node) *Node {
 	nn := &Node{
 		id:   o.id,
-		attr: maps.Clone(o.attr),
+		attr: o.cloneAttr(),
 		refs: slices.Clone(o.refs),
-		val:  o.val,
+		val:  o.valueFunc(),
 	}
+	n.mu.Lock()
 	if n.attr == nil {
 		n.attr = Attributes{}
 	}
+	n.mu.Unlock()
 	nn.SetNodeClass(ua.NodeClassVariable)
 	n.refs = append(n.refs, refs.Organizes(nn.id, nn.BrowseName().Name, nn.DisplayName().Text, nn.DataType()))
 	return nn
@@ -365,7 +404,7 @@ func (n *Node) AddRef(o *Node, rt RefType, forward bool) {
 // I'm not sure what the best way to implement "user" specific access levels
 // is presently.  Will need functioning user authentication first, and then a way to
 // pass it into the nodes user access attribute so it can be checked properly.
-func (n Node) Access(flag ua.AccessLevelType) bool {
+func (n *Node) Access(flag ua.AccessLevelType) bool {
 
 	access, err := n.Attribute(ua.AttributeIDUserAccessLevel)
 	if err == nil { // if we have a user access level, we need to check it.
